@@ -7,6 +7,16 @@
      all theorems of C08 apply again (no staging overflow, progress, ...).
    - C19_frame_end_is_reset: a call that returns 0 (frame complete, LZ4 or skippable) leaves
      the context exactly in a state produced by LZ4F_resetDecompressionContext.
+   - C19_reset_is_fresh: a context in ANY state an API-conforming caller can have reached
+     (middle of a frame, after completed or skipped frames, after a call that failed) behaves
+     after LZ4F_resetDecompressionContext exactly like a freshly created context on EVERY
+     further API-conforming sequence of calls (LZ4F_decompress, _usingDict, getFrameInfo, reset;
+     any bytes, chunkings, capacities, options): identical consumed counts, output bytes,
+     return values (hints and error codes) and reported frame information.  Proved by a
+     bisimulation on the live fields of each stage; the buffer capacities a reused context
+     keeps are shown not to influence any output.
+   - C19_frame_end_is_fresh: the same after a call that returned 0 (end of an LZ4 or skippable
+     frame), without any explicit reset.
    - C19_stops_at_frame_end: a call on a context at the start of a frame that returns 0 has
      consumed exactly the bytes of the frame that Spec.frame_decode recognises at the start
      of the input (nothing of what follows), whatever follows and whatever the capacity.
@@ -23,7 +33,7 @@
    compressor model: C03/C07); the harness c19.py checks it on the real code. *)
 From Coq Require Import ZArith List Lia Bool.
 From LZ4V Require Import Spec.BlockSpec Spec.XXH32 Spec.FrameSpec Gen.Consts Model.FrameD Model.FrameCtx.
-From LZ4V Require Import Proofs.FrameDHeader Proofs.FrameDProofs Proofs.FrameDReuse Proofs.FrameDSound Proofs.FrameCtxProofs.
+From LZ4V Require Import Proofs.FrameDHeader Proofs.FrameDProofs Proofs.FrameDReuse Proofs.FrameDSound Proofs.FrameDBisim Proofs.FrameCtxProofs.
 Import ListNotations.
 Local Open Scope Z_scope.
 
@@ -40,6 +50,17 @@ Theorem C19_frame_end_is_reset : forall bdec s src cap o,
   exists s0, fst (decompress bdec s src cap o) = reset s0.
 Proof. exact frame_end_is_reset. Qed.
 Print Assumptions C19_frame_end_is_reset.
+
+Theorem C19_reset_is_fresh : forall bdec s failed cs,
+  Reach bdec s failed -> run_api bdec (reset s) false cs = run_api bdec dctx_init false cs.
+Proof. exact reset_is_fresh. Qed.
+Print Assumptions C19_reset_is_fresh.
+
+Theorem C19_frame_end_is_fresh : forall bdec s src cap o cs,
+  wf s -> 0 <= cap -> r_ret (snd (decompress bdec s src cap o)) = 0 ->
+  run_api bdec (fst (decompress bdec s src cap o)) false cs = run_api bdec dctx_init false cs.
+Proof. exact frame_end_is_fresh. Qed.
+Print Assumptions C19_frame_end_is_fresh.
 
 Theorem C19_stops_at_frame_end : forall bdec s0 data cap o,
   wf s0 -> d_stage s0 = GetFrameHeader -> d_remaining s0 = 0 -> d_skip s0 = false ->
@@ -98,3 +119,19 @@ Example C19_example_cctx :
   cbegin (fold_left cstep [CBegin 0 100; CEnd; CBegin 9 100; CBegin 3 5; CBegin 1 100] cctx_init) 12 19
   = (mkC 2 2 1, 0).
 Proof. vm_compute. reflexivity. Qed.
+
+(* run_api is not trivially None: a conforming sequence on a context that was reset in the middle
+   of a block - header in pieces, a failing call (block too large), reset, getFrameInfo, the rest *)
+Example C19_example_run_api :
+  let hdr := [4; 34; 77; 24; 96; 64; 130] in
+  let o := mkO false false false in
+  let s1 := fst (decompress spec_decode dctx_init (hdr ++ [5; 0; 0; 0; 16; 97]) 100 o) in
+  let cs := [CDec [4; 34; 77] 10 None o; CDec [24; 96; 64; 130; 1; 0; 0; 1] 10 None o; CReset; CInfo hdr;
+             CDec [1; 0; 0; 128; 65; 0; 0; 0; 0] 10 None o] in
+  run_api spec_decode (reset s1) false cs = run_api spec_decode dctx_init false cs
+  /\ match run_api spec_decode dctx_init false cs with
+     | Some obs => (map ob_ret obs, map ob_out obs, map ob_consumed obs)
+                   = ([8; -2; 0; 4; 0], [[]; []; []; []; [65]], [3; 0; 0; 7; 9])
+     | None => False
+     end.
+Proof. vm_compute. split; reflexivity. Qed.
